@@ -102,6 +102,7 @@ type World struct {
 	statusLog   []string
 	onConsume   func(comp string, sig string, payload any) // optional tap (C06 graph mode)
 	comps       map[string]*stubBase
+	onStatus    func(instKey string, st componentstatus.Status)
 	failStartAt map[int]string
 }
 
@@ -685,7 +686,13 @@ type watcherExtension struct {
 func (e *watcherExtension) ComponentStatusChanged(src *componentstatus.InstanceID, ev *componentstatus.Event) {
 	e.w.mu.Lock()
 	e.w.statusLog = append(e.w.statusLog, fmt.Sprintf("%s|%s|%s", instKey(src), ev.Status(), errStr(ev.Err())))
+	hook := e.w.onStatus
 	e.w.mu.Unlock()
+	if hook != nil {
+		// a seam inside the status delivery path (it runs with the reporter's lock held, and during the replay to a
+		// late-attached instance of a shared component): the simulation may start concurrent work here
+		hook(instKey(src), ev.Status())
+	}
 }
 func (e *watcherExtension) NotifyConfig(context.Context, *confmap.Conf) error {
 	e.w.emit("notify-config", e.key, e.gen, "")
